@@ -31,6 +31,9 @@ fragment InputValue on __InputValue { name description type { ...TypeRef } defau
 fragment TypeRef on __Type { kind name ofType { kind name ofType { kind name ofType { kind name ofType { kind name ofType { kind name ofType { kind name } } } } } } }
 `
 
+// introspectionQueryNoDep asks the same without includeDeprecated: deprecated members are left out.
+var introspectionQueryNoDep = strings.ReplaceAll(introspectionQuery, "(includeDeprecated: true)", "")
+
 // sortedCanon renders a response with every list of objects sorted by its rendering (member order is
 // legitimately arrangement dependent).
 func sortedCanon(x interface{}) string {
@@ -78,7 +81,7 @@ func loadArrangement(texts []string) (root *ggql.Root, failedAt int, err error, 
 	return root, -1, nil, nil
 }
 
-var c16Requests = []string{"{__typename}", introspectionQuery, `{__type(name: "T0") {name kind fields {name type {name kind}}}}`, `{__type(name: "E0") {enumValues {name}}}`, "{a b c}"}
+var c16Requests = []string{"{__typename}", introspectionQuery, introspectionQueryNoDep, `{__type(name: "T0") {name kind fields {name type {name kind}}}}`, `{__type(name: "E0") {enumValues {name}}}`, "{a b c}"}
 
 func observe(root *ggql.Root) (desc string, answers []string, pan interface{}) {
 	defer func() {
